@@ -415,4 +415,32 @@ example :
       [[.call [.input 0, .tok (.chr 88)], .atom (.tok (.chr 89))]] = .ok [.chr 66, .chr 88, .chr 89] := by
   decide +kernel
 
+/-- **Which tokens end a file name.** For every token category the code's rule is TeX's
+(§526): every character token except a space belongs to the name — also `{ } $ & # ^ _` —
+a space ends it and is consumed, a control sequence or an active character ends it and stays.
+Hence the scanned name and the number of tokens consumed agree on every token list. -/
+theorem name_tokens_are_tex (cat : Nat) : nameTokCode cat = nameTokTeX cat := by
+  unfold nameTokCode nameTokTeX
+  by_cases h10 : cat = 10
+  · simp [h10]
+  · by_cases hl : cat < 16
+    · have : cat = 0 ∨ cat = 1 ∨ cat = 2 ∨ cat = 3 ∨ cat = 4 ∨ cat = 5 ∨ cat = 6 ∨ cat = 7 ∨ cat = 8 ∨
+        cat = 9 ∨ cat = 11 ∨ cat = 12 ∨ cat = 13 ∨ cat = 14 ∨ cat = 15 := by omega
+      rcases this with h | h | h | h | h | h | h | h | h | h | h | h | h | h | h <;> subst h <;> decide
+    · have h16 : cat ≥ 16 := by omega
+      have : cat ∉ [1, 2, 3, 4, 6, 7, 8, 11, 12] := by
+        intro hm; simp at hm; omega
+      simp [h10, h16, this]
+
+theorem scanned_name_is_tex (toks : List (Nat × Nat)) : takeName nameTokCode toks = takeName nameTokTeX toks := by
+  have : nameTokCode = nameTokTeX := funext name_tokens_are_tex
+  rw [this]
+
+/-- `chapter_one␣X`: the name is `chapter_one` (11 characters, the `_` of category 8
+included), 12 tokens are consumed; `a\relax`: the name is `a`, one token consumed. -/
+example :
+    takeName nameTokTeX [(99, 11), (104, 11), (95, 8), (111, 11), (32, 10), (88, 11)] = ([99, 104, 95, 111], 5) ∧
+    takeName nameTokCode [(97, 11), (0, 16)] = ([97], 1) ∧
+    takeName nameTokTeX [(97, 11), (123, 1), (36, 3), (125, 2), (126, 13)] = ([97, 123, 36, 125], 4) := by decide
+
 end C19
